@@ -18,7 +18,8 @@ func c17WriteBuf(r *Run) {
 		r.Rng.Read(prefix)
 		model := append([]byte{}, prefix...)
 		w := avro.NewWriteBuf(prefix)
-		var ops []string
+		var ops, terms []string
+		start := append([]byte{}, prefix...)
 		ok := true
 		for k, steps := 0, 1+r.Rng.Intn(40); k < steps && ok; k++ {
 			switch r.Rng.Intn(8) {
@@ -28,21 +29,25 @@ func c17WriteBuf(r *Run) {
 				w.Varint(v)
 				model = append(model, specVarint(v)...)
 				ops = append(ops, fmt.Sprintf("Varint(%d)", v))
+				terms = append(terms, cApp("WbVarint", cZ(v)))
 			case 3, 4:
 				b := byte(r.Rng.Intn(256))
 				w.Byte(b)
 				model = append(model, b)
 				ops = append(ops, fmt.Sprintf("Byte(%#x)", b))
+				terms = append(terms, cApp("WbByte", cZ(int64(b))))
 			case 5, 6:
 				val := make([]byte, []int{0, 1, 7, 64, 300, 5000}[r.Rng.Intn(6)])
 				r.Rng.Read(val)
 				w.Write(val)
 				model = append(model, val...)
 				ops = append(ops, fmt.Sprintf("Write(%d bytes)", len(val)))
+				terms = append(terms, cApp("WbWrite", cBytes(val)))
 			default:
 				w.Reset()
 				model = model[:0]
 				ops = append(ops, "Reset()")
+				terms = append(terms, "WbReset")
 			}
 			if w.Len() != len(model) || !bytes.Equal(w.Bytes(), model) {
 				r.Fail(-1, "writebuf", fmt.Sprintf("after %v on a WriteBuf over %d bytes (capacity %d): Len %d and Bytes of %d bytes, a plain append gives %d bytes (first difference at %d)",
@@ -51,6 +56,10 @@ func c17WriteBuf(r *Run) {
 			}
 		}
 		r.Count("writebuf-sequences")
+		if ok && len(w.Bytes()) < 3000 {
+			// the same history through the model (Model/Buffers.v wb_run)
+			r.Add(cApp("KWb", cBytes(start), cList(terms), cBytes(w.Bytes())), map[string]any{"ops": ops}, fmt.Sprintf("wb/%x/%v", start, ops))
+		}
 	}
 }
 
